@@ -334,7 +334,7 @@ def run(ctx):
         case = {"kind": "var2h", "stamps": stamps, "values": vals, "P": P,
                 "maxgapsec": maxgap, "rainfall": rainfall, "variants": variants}
         run_case(ctx, case)
-        if it0 % 20 == 0 and len(stamps) <= 8:
+        if it0 % 20 == 0:
             ctx.sample(case)
 
 
